@@ -276,6 +276,24 @@ fn ranges(len: usize, hints: &[(String, u64)]) -> Vec<(u64, u64)> {
     r
 }
 
+static mut FAILS: Vec<String> = Vec::new();
+/// keep the first failure of each distinct kind ("<property> <next two words>") and continue with the next scenario
+fn note<T: Default>(r: Result<T, Failure>) -> T {
+    match r {
+        Ok(v) => v,
+        Err(f) => {
+            unsafe {
+                let fails = &mut *std::ptr::addr_of_mut!(FAILS);
+                let key: String = f.0.split(' ').take(3).collect::<Vec<_>>().join(" ");
+                if fails.len() < 60 && !fails.iter().any(|x| x.starts_with(&key)) {
+                    fails.push(f.0);
+                }
+            }
+            T::default()
+        }
+    }
+}
+
 fn run_family_a(hints: &[(String, u64)]) -> Result<usize, Failure> {
     let mut n = 0usize;
     let mut lens = vec![64usize, 65, 100, 200];
@@ -294,16 +312,16 @@ fn run_family_a(hints: &[(String, u64)]) -> Result<usize, Failure> {
             }
         }
         for seq in &seqs {
-            scenario_a(len, seq, usize::MAX, Fault::None, false).map_err(|f| Failure(format!("{} [len={len} seq={seq:?} no fault]", f.0)))?;
+            note(scenario_a(len, seq, usize::MAX, Fault::None, false).map_err(|f| Failure(format!("{} [len={len} seq={seq:?} no fault]", f.0))));
             n += 1;
         }
         for seq in seqs.iter().filter(|s| s.len() == 3).step_by(7) {
-            scenario_a(len, seq, usize::MAX, Fault::None, true).map_err(|f| Failure(format!("{} [len={len} seq={seq:?} short reads]", f.0)))?;
+            note(scenario_a(len, seq, usize::MAX, Fault::None, true).map_err(|f| Failure(format!("{} [len={len} seq={seq:?} short reads]", f.0))));
             for at in 0..14 {
-                scenario_a(len, seq, at, Fault::Interrupted, false).map_err(|f| Failure(format!("{} [len={len} seq={seq:?} EINTR@{at}]", f.0)))?;
+                note(scenario_a(len, seq, at, Fault::Interrupted, false).map_err(|f| Failure(format!("{} [len={len} seq={seq:?} EINTR@{at}]", f.0))));
                 for fault in [Fault::Error, Fault::Eof] {
-                    scenario_a(len, seq, at, fault, false).map_err(|f| Failure(format!("{} [len={len} seq={seq:?} {fault:?}@{at}]", f.0)))?;
-                    scenario_a_residue(len, seq, at, fault).map_err(|f| Failure(format!("{} [len={len} seq={seq:?}]", f.0)))?;
+                    note(scenario_a(len, seq, at, fault, false).map_err(|f| Failure(format!("{} [len={len} seq={seq:?} {fault:?}@{at}]", f.0))));
+                    note(scenario_a_residue(len, seq, at, fault).map_err(|f| Failure(format!("{} [len={len} seq={seq:?}]", f.0))));
                     n += 2;
                 }
             }
@@ -361,6 +379,20 @@ fn compare_file(name: &str, file: &[u8], at: usize, fault: Fault, short: bool) -
         fail!("C05/C07 {name}: program header tables differ ({} vs {} entries)", s.segments().len(), bph.len());
     }
     if hard {
+        // a fault may have been injected into open (then we never get here with Ok) or is still pending: whatever the next queries
+        // return must be an error or exactly the fault-free answer, never a fabricated "absent"/different answer
+        let want = b.section_header_by_name(".text").ok().flatten();
+        if let Ok(got) = s.section_header_by_name(".text") {
+            if got.copied() != want {
+                fail!("C17 {name}: under an injected {fault:?}@{at} section_header_by_name(.text) returned {} instead of an error or the fault-free answer", if got.is_some() { "a different section" } else { "None" });
+            }
+        }
+        let want_sym = b.symbol_table().ok().flatten().map(|(t, _)| t.len());
+        if let Ok(got) = s.symbol_table() {
+            if got.map(|(t, _)| t.len()) != want_sym {
+                fail!("C17 {name}: under an injected {fault:?}@{at} symbol_table() returned a different answer instead of an error");
+            }
+        }
         return Ok(());
     }
     let nonempty_or_absent = b.section_headers().map(|t| !t.is_empty()).unwrap_or(true);
@@ -420,6 +452,38 @@ fn compare_file(name: &str, file: &[u8], at: usize, fault: Fault, short: bool) -
         if bn != sn {
             fail!("C07 {name}: section_header_by_name(.text) differs");
         }
+        // the name of section 1 must be found by both (exercises the section-name string table incl. extended numbering)
+        if let (Ok((Some(t), Some(strs))), true) = (b.section_headers_with_strtab(), bsh.len() > 1) {
+            if let Some(nm) = t.get(1).ok().and_then(|h| strs.get(h.sh_name as usize).ok()) {
+                let nm = nm.to_string();
+                let bn = b.section_header_by_name(&nm).ok().flatten();
+                let sn = s.section_header_by_name(&nm).ok().flatten().copied();
+                if bn != sn {
+                    fail!("C07/C05 {name}: section_header_by_name({nm:?}) differs (slice {:?}, stream {:?})", bn.is_some(), sn.is_some());
+                }
+            }
+        }
+        // symbol versions: same answers for the first symbols
+        match (b.symbol_version_table(), s.symbol_version_table()) {
+            (Ok(Some(bt)), Ok(Some(st))) => {
+                for i in 0..8usize {
+                    let br = bt.get_requirement(i).ok().flatten().map(|r| (r.file.to_string(), r.name.to_string(), r.hash, r.flags, r.hidden));
+                    let sr = st.get_requirement(i).ok().flatten().map(|r| (r.file.to_string(), r.name.to_string(), r.hash, r.flags, r.hidden));
+                    if br != sr {
+                        fail!("C07 {name}: get_requirement({i}) differs between stream and slice");
+                    }
+                    let bd_: Option<(u32, u16, bool, Vec<Option<String>>)> = bt.get_definition(i).ok().flatten().map(|d| (d.hash, d.flags, d.hidden, d.names.map(|n| n.ok().map(|x| x.to_string())).collect()));
+                    let sd_: Option<(u32, u16, bool, Vec<Option<String>>)> = st.get_definition(i).ok().flatten().map(|d| (d.hash, d.flags, d.hidden, d.names.map(|n| n.ok().map(|x| x.to_string())).collect()));
+                    if bd_ != sd_ {
+                        fail!("C07 {name}: get_definition({i}) differs between stream and slice ({:?} vs {:?})", sd_.map(|x| x.3), bd_.map(|x| x.3));
+                    }
+                }
+            }
+            (Ok(None), Ok(None)) | (Err(_), Err(_)) => {}
+            (Ok(Some(_)), Err(_)) => fail!("C07 {name}: symbol_version_table: slice Ok, stream Err"),
+            (Err(_), Ok(Some(_))) => fail!("C07 {name}: symbol_version_table: stream Ok, slice Err"),
+            _ => fail!("C07 {name}: symbol_version_table Some/None/Err differs"),
+        }
         let bd: Option<Vec<_>> = b.dynamic().ok().flatten().map(|t| t.iter().collect());
         let sd: Option<Vec<_>> = s.dynamic().ok().flatten().map(|t| t.iter().collect());
         if bd.is_some() && bd != sd {
@@ -464,6 +528,51 @@ fn corruptions(file: &[u8]) -> Vec<(String, Vec<u8>)> {
             out.push((format!("xnum shdr0 size={sz:#x} info={info:#x} link={link:#x}"), f));
         }
     }
+    // .gnu.version_d / .gnu.version_r pointing at another string table (or nowhere)
+    if shoff + 64 <= file.len() {
+        let n = u16::from_le_bytes(file[60..62].try_into().unwrap()) as usize;
+        let strndx = u16::from_le_bytes(file[62..64].try_into().unwrap()) as u64;
+        for i in 0..n {
+            let p = shoff + 64 * i;
+            if p + 64 > file.len() {
+                break;
+            }
+            let ty = u32::from_le_bytes(file[p + 4..p + 8].try_into().unwrap());
+            if ty == 0x6ffffffd || ty == 0x6ffffffe {
+                for l in [strndx, 0xfff0u64] {
+                    let mut f = file.to_vec();
+                    put(&mut f, p + 40, l, 4);
+                    out.push((format!("section {i} (type {ty:#x}) sh_link={l:#x}"), f));
+                }
+            }
+        }
+        // extended numbering with the real counts kept: e_shnum=0 -> shdr[0].sh_size, e_shstrndx=0xffff -> shdr[0].sh_link
+        let mut f = file.to_vec();
+        put(&mut f, 60, 0, 2);
+        put(&mut f, 62, 0xffff, 2);
+        put(&mut f, shoff + 32, n as u64, 8);
+        put(&mut f, shoff + 40, strndx, 4);
+        out.push(("extended numbering (e_shnum=0, e_shstrndx=0xffff) with the real values in shdr[0]".to_string(), f));
+        let mut f = file.to_vec();
+        put(&mut f, 60, 0, 2);
+        put(&mut f, shoff + 32, n as u64, 8);
+        out.push(("e_shnum=0 with the real count in shdr[0].sh_size".to_string(), f));
+    }
+    {
+        // PN_XNUM without a section table / with a zero-entry section table
+        let mut f = file.to_vec();
+        put(&mut f, 56, 0xffff, 2);
+        put(&mut f, 40, 0, 8);
+        out.push(("e_phnum=0xffff with e_shoff=0".to_string(), f));
+        if shoff + 64 <= file.len() {
+            let mut f = file.to_vec();
+            put(&mut f, 56, 0xffff, 2);
+            put(&mut f, 60, 0, 2);
+            put(&mut f, shoff + 32, 0, 8);
+            put(&mut f, shoff + 44, 1, 4);
+            out.push(("e_phnum=0xffff, e_shnum=0 with shdr[0].sh_size=0, sh_info=1".to_string(), f));
+        }
+    }
     for cut in [file.len() / 2, file.len() - 1, 63, 64, 120] {
         if cut < file.len() {
             out.push((format!("truncated to {cut}"), file[..cut].to_vec()));
@@ -484,13 +593,13 @@ fn run_family_b() -> Result<usize, Failure> {
         };
         for (what, f) in corruptions(&file) {
             let label = format!("{} [{}]", p.display(), what);
-            compare_file(&label, &f, usize::MAX, Fault::None, false)?;
+            note(compare_file(&label, &f, usize::MAX, Fault::None, false));
             n += 1;
             if f.len() <= 8192 {
-                compare_file(&label, &f, usize::MAX, Fault::None, true).map_err(|x| Failure(format!("{} (short reads)", x.0)))?;
+                note(compare_file(&label, &f, usize::MAX, Fault::None, true).map_err(|x| Failure(format!("{} (short reads)", x.0))));
                 for at in 0..12 {
                     for fault in [Fault::Error, Fault::Eof, Fault::Interrupted] {
-                        compare_file(&label, &f, at, fault, false).map_err(|x| Failure(format!("{} ({fault:?}@{at})", x.0)))?;
+                        note(compare_file(&label, &f, at, fault, false).map_err(|x| Failure(format!("{} ({fault:?}@{at})", x.0))));
                         n += 1;
                     }
                 }
@@ -525,13 +634,20 @@ fn main() {
             println!("FAIL {}", f.0);
             std::process::exit(1);
         }
-        Ok(n) => println!("family A (header-only files, range queries, fault schedules): {n} scenarios passed"),
+        Ok(n) => println!("family A (header-only files, range queries, fault schedules): {n} scenarios run"),
     }
     match run_family_b() {
         Err(f) => {
             println!("FAIL {}", f.0);
             std::process::exit(1);
         }
-        Ok(n) => println!("family B (sample objects and corruptions, accessors, fault schedules): {n} scenarios passed"),
+        Ok(n) => println!("family B (sample objects and corruptions, accessors, fault schedules): {n} scenarios run"),
+    }
+    let fails = unsafe { &*std::ptr::addr_of!(FAILS) };
+    for f in fails {
+        println!("FAIL {f}");
+    }
+    if !fails.is_empty() {
+        std::process::exit(1);
     }
 }
